@@ -20,6 +20,12 @@ Spec == Init /\ [][Next]_<<sid, iid>>
 W == Scen[sid].inputs[iid].r
 Entry == Scen[sid].grammar.rules[1].name
 Sound == SwitchSound(Bodies[sid], Opts[sid], W, Entry)
+\* the same statement for the grammar that the transcribed passes over the rule cache produce
+OptsCode == [s \in 1..Len(Scen) |-> OptGrammarCode(Bodies[s], InAlpha(s), Scen[s].grammar.rules[1].name)]
+SoundCode == SwitchSound(Bodies[sid], OptsCode[sid], W, Entry)
+\* ... and, with the passes repeated until stable, that grammar is the idealised rewrite on the reachable rules
+Agrees == [s \in 1..Len(Scen) |-> TranscriptionAgrees(Bodies[s], InAlpha(s), Scen[s].grammar.rules[1].name)]
+TranscriptionOK == FirstPasses = 0 => Agrees[sid]
 \* non-vacuity witness (expected to be violated): no scenario is rewritten at all
 NothingRewritten == ~Rewritten(Opts[sid])
 =============================================================================
